@@ -34,6 +34,16 @@ PROPS["C18"] = dict(
                   "rounding of general floats is outside the theorem"],
     assumptions=["no integer overflow in int coordinates; floats finite (no NaN/Inf)", "query points of Contains lie on no edge"],
 )
+PROPS["C08"] = dict(
+    n_quick=1600, n_thorough=200000, shards=8,
+    rule="cases: histories of 1-200 BitSet operations (Set/Clear/Flip, the three range forms incl. reversed and beyond-capacity ranges, Trim, "
+         "EnsureCapacity, Data, Reset, Load, Load(Data()), Copy, Clone) over indexes drawn around word boundaries and uniformly up to 70/200/700/5000; "
+         "after EVERY operation: Count, State of every index below max index+130, FirstSet/LastSet, the four searches from 12 start positions, "
+         "Equal against twins of different capacity. non-trivial = history of >= 3 operations; distinct = distinct case text",
+    trivial_class=r"(trivial|^bad$|^exn$)",
+    trusted_base=["per-bit inner loops of the range operations and countSetBits are modelled as word masks / population count (tied by K on Count after every op)"],
+    assumptions=["indexes are >= 0 (negative indexes call atexit.Exit and are outside the property's quantifier)", "int is 64 bits"],
+)
 
 # properties not (yet) claimed, with the reason; an entry is dropped automatically once the property is in PROPS
 NOT_APPLICABLE = {
@@ -42,6 +52,14 @@ NOT_APPLICABLE = {
 }
 
 MANIFEST_TEXT = {
+    "C08": dict(
+        level_text="Proof: the model's State is set membership; Set/Clear/Flip have exactly the set-theoretic effect on every index; Trim, "
+                   "EnsureCapacity, Data, Copy/Clone leave the set and the count unchanged, Data is canonical, Reset empties -- Coq theorems for "
+                   "all states and all indexes >= 0. Range forms, Count = cardinality, the six searches, Load and Equal are decided per run by "
+                   "the correspondence check plus a reference set evaluated on the implementation's observations after every operation "
+                   "(theorems for these are stated in DESIGN.md as not yet proved).",
+        level_note="Trusted: Coq kernel, extraction, drivers, harness; model hand-written, tied by correspondence on sampled histories.",
+        technique="Coq proof (refinement to a membership function) on a hand-written Gallina model + differential correspondence check"),
     "C18": dict(
         level_text="Proof: Contains = inclusion of a non-empty rectangle, Intersects = common point, Intersect = common points, Union = least "
                    "cover, empties, the four affine composition laws + identity, Contour.Contains = parity of the textbook crossing number off "
